@@ -11,6 +11,11 @@ EXTRA = {  # a change may also endanger the composite properties
 }
 
 
+FILE2PROP = {"projection.py": ["C16"], "sum_aggregates.py": ["C13"], "cleanup.py": ["C08"], "unused.py": ["C09"],
+             "minmax_aggregates.py": ["C12"], "symmetry.py": ["C11"], "inline.py": ["C15"], "math_simplification.py": ["C14"],
+             "literal_duplication.py": ["C10"], "dependency.py": ["C20"], "normalize.py": ["C05"]}
+
+
 def sh(cmd, **kw):
     return subprocess.run(cmd, shell=True, stdout=subprocess.PIPE, stderr=subprocess.STDOUT, text=True, **kw)
 
@@ -26,6 +31,16 @@ def main():
     for seed in seeds:
         pid = seed.split("-")[0]
         props = [p for p in [pid] + EXTRA.get(pid, []) if os.path.exists(os.path.join(VERIF, "harness", "props", p + ".py"))]
+        # the check of the pass the change touches (a user runs every check on every change; the composite properties
+        # C01/C02/C06 have a small quick budget per pass)
+        try:
+            files = json.load(open(os.path.join(VERIF, "seeded", seed, "meta.json"))).get("files", [])
+        except Exception:
+            files = []
+        for f in files:
+            for key, ps in FILE2PROP.items():
+                if key in f:
+                    props += [q for q in ps if q not in props]
         if os.environ.get("SEED_PROPS"):   # which checks besides the seed's own catch it: SEED_PROPS=C13,C02
             props = os.environ["SEED_PROPS"].split(",")
         wt = os.path.join(SCR, "wt")
